@@ -8,8 +8,8 @@ from vlib import framework as fw
 RULE = ("table construction (LALR / SLR without strategies, LALR with prefer-shifts; serialised states + the S/R and R/R conflict lists in the order the table presents them) "
         "for every {n}-th grammar of Gamma(3, 2) + corpus + a modular grammar with equal local terminal names in two "
         "modules, and the index order of the trees of ambiguous forests (incl. consume_input=False and lexical "
-        "ambiguity), each computed in a fresh interpreter under PYTHONHASHSEED in {seeds}; every digest must be equal "
-        "across the seeds; non-trivial = a distinct (case, seed) digest")
+        "ambiguity), each computed in a fresh interpreter under PYTHONHASHSEED in {seeds}, every table a second time in the same "
+        "process from the re-loaded text; every digest must be equal across the seeds and across the two constructions; non-trivial = a distinct (case, seed) digest")
 
 
 def run_child(seed_tier):
@@ -40,7 +40,12 @@ def check(run, only=None):
             res["nontrivial"] = len(base)
             for name in base:
                 vals = [o.get(name) for o in outs]
-                if len(set(vals)) != 1:
+                if any(isinstance(v, str) and v.startswith("in-process-differs") for v in vals):
+                    res["violations"].append(fw.Violation("det.same_on_repeated_construction", {"case": name[:300]},
+                                                          {"digests_by_seed": vals},
+                                                          case={"family": "generic", "module": "vlib.props.c16",
+                                                                "function": "replay", "tier": run.tier}))
+                elif len(set(vals)) != 1:
                     res["violations"].append(fw.Violation("det.same_across_hash_seeds", {"case": name[:300]},
                                                           {"digests_by_seed": vals},
                                                           case={"family": "generic", "module": "vlib.props.c16",
@@ -52,6 +57,8 @@ def check(run, only=None):
 def replay(case, key):
     outs = [run_child((s, case.get("tier", "quick"))) for s in range(6)]
     vals = [o.get(next((k for k in o if k[:300] == key["case"]), None)) for o in outs]
+    if any(isinstance(v, str) and v.startswith("in-process-differs") for v in vals):
+        return {"violations": [("det.same_on_repeated_construction", key, {"digests_by_seed": vals})]}
     if len(set(vals)) != 1:
         return {"violations": [("det.same_across_hash_seeds", key, {"digests_by_seed": vals})]}
     return {"violations": []}
